@@ -256,7 +256,16 @@ func (ex *Exec) bindSelf(st *State, c *Contract, e *Env) {
 		ex.abort("STALE-CONTRACT: %s declares %d parameters, function has %d", c.Name, len(cparams), len(params)-i)
 	}
 	for k, b := range cparams {
-		e.vars[b.Name] = BVal{Val: st.vals[params[i+k]], Type: params[i+k].Type()}
+		v := st.vals[params[i+k]]
+		if c.Kind == "interface" && v.Sort != SIface {
+			// a method checked against the contract of the interface method it implements: the receiver, as an interface value
+			if bt := ex.typeOfBinder(c, b); bt != nil {
+				if _, isI := bt.Underlying().(*types.Interface); isI {
+					v = st.makeIface(v, params[i+k].Type())
+				}
+			}
+		}
+		e.vars[b.Name] = BVal{Val: v, Type: params[i+k].Type()}
 	}
 	if len(c.Captures) > 0 {
 		if len(c.Captures) != len(fn.FreeVars) {
@@ -319,7 +328,11 @@ func (ex *Exec) run() (err error) {
 			st.sc.assert(e.eval(ax.Clause.Expr))
 		}
 	}
-	if pc := ex.prog.PC[ex.pkgPath()]; pc != nil && fn.Synthetic == "" {
+	for _, pk := range sortedKeys(ex.prog.PC) {
+		pc := ex.prog.PC[pk]
+		if fn.Synthetic != "" && pk == ex.pkgPath() {
+			continue // the package initialiser establishes its own invariants
+		}
 		for _, gi := range pc.GlobalInvs {
 			e := &Env{st: st, pkgPath: gi.PkgPath, info: ex.prog.infoFor(gi.PkgPath), vars: map[string]BVal{}, cur: st.heap, old: st.heap, allocLo: st.alloc0}
 			st.sc.comment("global invariant %s", gi.Requires[0].Text)
@@ -348,18 +361,35 @@ func (ex *Exec) run() (err error) {
 			}
 		}
 	}
-	for ci, c := range ex.cons {
+	// preconditions. When the function also refines other contracts (e.g. the contract of the
+	// interface method it implements), those preconditions are assumed first and the function's own
+	// preconditions must follow from them.
+	hasRefined := len(ex.cons) > ex.ownCons
+	for ci := ex.ownCons; ci < len(ex.cons); ci++ {
+		c := ex.cons[ci]
 		e := ex.envFor(st, c)
 		ex.bindSelf(st, c, e)
 		ex.bindLets(c, e)
 		for _, cl := range c.Requires {
-			st.sc.comment("requires %s", cl.Text)
+			st.sc.comment("requires (refined contract %s) %s", c.Name, cl.Text)
 			st.sc.assert(e.eval(cl.Expr))
 		}
-		if ci < ex.ownCons {
-			for _, cl := range c.Assigns {
-				ex.assign = append(ex.assign, e.evalAssigns(cl.Expr)...)
+	}
+	for ci := 0; ci < ex.ownCons; ci++ {
+		c := ex.cons[ci]
+		e := ex.envFor(st, c)
+		ex.bindSelf(st, c, e)
+		ex.bindLets(c, e)
+		for k, cl := range c.Requires {
+			st.sc.comment("requires %s", cl.Text)
+			if hasRefined {
+				st.check(fmt.Sprintf("refines/pre:%s#%d", c.Name, k+1), "refine", e.eval(cl.Expr), "own precondition follows from the refined contract's precondition: "+cl.Text, cl.Props, token.NoPos)
+			} else {
+				st.sc.assert(e.eval(cl.Expr))
 			}
+		}
+		for _, cl := range c.Assigns {
+			ex.assign = append(ex.assign, e.evalAssigns(cl.Expr)...)
 		}
 	}
 	// entry snapshot
@@ -620,13 +650,22 @@ func (st *State) implementsPred(dt Term, it types.Type) Term {
 
 func (st *State) noteTypeID(id int) {}
 
-// stringOfBytes: the string with the contents of byte slice b in snapshot snap
+// stringOfBytes: the string with the contents of byte slice b in snapshot snap.
+// It is a function of (array, offset, length) per version of the byte family,
+// so the same bytes in the same heap give the same string term.
 func (st *State) stringOfBytes(snap map[string]string, b Term) Term {
 	f := st.elemFam(SInt)
-	s := st.sc.fresh("strof", SStr)
-	st.sc.assert(eq(app(SInt, "gstr.len", s), slLen(b)))
-	st.sc.emit("(assert (forall ((k Int)) (! (=> (and (<= 0 k) (< k (s-len %[1]s))) (= (gstr.at %[2]s k) %[3]s)) :pattern ((gstr.at %[2]s k)))))", b.S, s.S, st.getElem(snap, f, b, Term{"k", SInt}).S)
-	return s
+	esym := st.symIn(snap, f.Name)
+	fn := "gstr.of." + esym
+	if !st.sc.declared["fun:"+fn] {
+		st.sc.declFun(fn, []Sort{SInt, SInt, SInt}, SStr)
+		st.sc.emit("(assert (forall ((a Int) (o Int) (l Int)) (! (=> (>= l 0) (= (gstr.len (%[1]s a o l)) l)) :pattern ((%[1]s a o l)))))", fn)
+		st.sc.emit("(assert (forall ((a Int) (o Int) (l Int) (k Int)) (! (=> (and (<= 0 k) (< k l)) (= (gstr.at (%[1]s a o l) k) (%[2]s a o k))) :pattern ((gstr.at (%[1]s a o l) k)))))", fn, esym)
+	}
+	if bi, ok := st.sliceBase[b.S]; ok {
+		return app(SStr, fn, slArr(bi.Base), add(slOff(bi.Base), bi.Delta), slLen(b))
+	}
+	return app(SStr, fn, slArr(b), slOff(b), slLen(b))
 }
 
 // ---------------------------------------------------------------------------
